@@ -6,7 +6,7 @@ execution.  Every transformation is a documented re-binding (see DESIGN.md,
 import ast
 import os
 
-REPO = "/repo"
+REPO = os.environ.get("VERIF_REPO", "/repo")   # checks always run against /repo; the override only serves scratch evaluation of seeded changes
 
 
 def _find(tree, qualname):
